@@ -31,6 +31,30 @@
 //! Deviations from DESIGN.md: DML / COPY / DDL plans are not generated (the refsql grammar has none; left for
 //! a later corpus pass); expressions come from the plans plus a local generator instead of the C04 generator
 //! (which lives in another binary crate).
+//!
+//! # Recorded findings (known_findings.json, one regression case each under /verif/regressions/C35/c35/)
+//! Code-level tags — a case is excluded only when the difference is EXACTLY what the recorded spot explains
+//! (expressions: the decoded expression equals the original under some subset of the lossy rewrites in
+//! `lossy_with`; plans: the texts agree after the stated normalisation and the rows still agree):
+//! `column-relation-unquoted`, `literal-metadata-dropped`, `alias-metadata-dropped`, `cast-metadata-dropped`,
+//! `binary-operator-not-decodable`, `like-escape-char-non-ascii`, `json-nonfinite-float`, `json-float-not-exact`,
+//! `float16-scalar-as-float32`, `nested-scalar-ipc-union-or-ree-child` (coarse: any failure of a scalar with a
+//! Union / RunEndEncoded child below the top level), `empty-relation-schema-dropped` (coarse: any text / schema
+//! decode difference of a plan holding an EmptyRelation with columns), `limit-fetch-none-decoded-as-max`,
+//! `union-nary-decoded-nested`, `union-schema-not-encoded` (plan holds a Union whose stored schema differs from
+//! the one derived from its inputs).
+//! Repairs proposed and verified with mutrun (the regression cases pass on the patched tree):
+//! /verif/fixes/C35-alias-metadata-decoded.diff, C35-cast-metadata-decoded.diff, C35-like-escape-char-non-ascii.diff,
+//! C35-limit-fetch-none.diff, C35-union-nary-decoded-flat.diff.
+//!
+//! # Sensitivity probes (mutrun, /verif/probes/vf-serde/m1-proto-probes.diff, quick tier, seed 0)
+//! * logical `SortNode.fetch` always -1 (fetch dropped in to_proto) → DETECTED: "decoded plan differs in its
+//!   textual form: `Sort: .., fetch=N [..]` => `Sort: .. [..]`" (≈ 30 plans).
+//! * `AggregateUdfExprNode.distinct` always false → DETECTED: "plan encodes but does not decode: No field named
+//!   \"sum(DISTINCT r0.b)\"" (15 plans) and "expression decodes to a different expression" (expr cases).
+//!
+//! Other behaviour: a plan scanning a table function (generate_series) is a discard (no provider codec);
+//! a panic while planning / running the ORIGINAL plan is a discard (outside this property).
 use crate::common::*;
 use crate::exprgen::{self, ESpec};
 use datafusion::common::ScalarValue;
